@@ -118,6 +118,10 @@ class C09(Spec):
         w.serve(alice, netgen.ok_json(stamp({"type": "Person", "id": alice, "name": "A", "preferredUsername": "a", "x": 1}, w.host(ha))))
         w.serve(bob_b, netgen.ok_json(stamp({"type": "Person", "id": bob_b, "name": "B", "preferredUsername": "b", "x": 1}, w.host(hb))))
         w.serve(other, netgen.ok_json(stamp({"type": "Note", "id": other, "content": "another thread", "x": 1}, w.host(ha))))
+        # posts whose ids are near misses of the opened post's id: another letter case, a longer id, a trailing slash, a query
+        near = [w.url(ha, "/notes/OP"), w.url(ha, "/notes/op2"), w.url(ha, "/notes/op/"), w.url(ha, "/notes/op?x=1"), w.url(ha, "/Notes/op")]
+        for u in near:
+            w.serve(u, netgen.ok_json(stamp({"type": "Note", "id": u, "content": "a different post", "x": 1}, w.host(ha))))
         entries, truth = [], []
         n = rng.randint(1, 6)
         for i in range(n):
@@ -125,13 +129,15 @@ class C09(Spec):
             rid = w.url(host, "/notes/r%d" % i)
             author = alice if host == ha else bob_b
             note = {"type": "Note", "id": rid, "content": "reply %d" % i, "inReplyTo": me, "attributedTo": author}
-            kind = rng.choice(["good", "good", "other-parent", "no-parent", "foreign-author", "author-no-id", "tombstone", "not-a-post", "missing", "parent-stub",
+            kind = rng.choice(["good", "good", "other-parent", "near-parent", "near-parent", "no-parent", "foreign-author", "author-no-id", "tombstone", "not-a-post", "missing", "parent-stub",
                                "author-list", "author-list", "author-list"])
             genuine = False
             if kind == "good":
                 genuine = True
             elif kind == "other-parent":
                 note["inReplyTo"] = other
+            elif kind == "near-parent":
+                note["inReplyTo"] = rng.choice(near)
             elif kind == "no-parent":
                 del note["inReplyTo"]
             elif kind == "foreign-author":
